@@ -198,16 +198,17 @@ class DtdMapper:
             restrictions = cls.build_restrictions(content.occur, **kwargs)
             cls.build_element(target, content.name, restrictions)
         elif content_type == DtdContentType.SEQ:
+            if content.occur != DtdContentOccur.ONCE:
+                inherited = "min_occurs" in kwargs
+                kwargs = cls.merge_occurs(content.occur, **kwargs)
+                if not inherited and kwargs["min_occurs"] == 1:
+                    del kwargs["min_occurs"]
             cls.build_content_tree(target, content, **kwargs)
         elif content_type == DtdContentType.OR:
-            params = cls.build_occurs(content.occur)
-            params.update(
-                {
-                    "choice": id(content),
-                    "min_occurs": 0,
-                }
-            )
-            params.update(**kwargs)
+            params = cls.merge_occurs(content.occur, **kwargs)
+            if "min_occurs" not in kwargs:
+                params["min_occurs"] = 0
+            params.setdefault("choice", id(content))
             cls.build_content_tree(target, content, **params)
         else:  # content_type == DtdContentType.PCDATA:
             restrictions = cls.build_restrictions(content.occur, **kwargs)
@@ -257,6 +258,28 @@ class DtdMapper:
         }
 
     @classmethod
+    def merge_occurs(cls, occur: DtdContentOccur, **kwargs: Any) -> dict:
+        """Combine the occurrence of a node with the one inherited from its groups.
+
+        A member of a repeating group may repeat and a member of an
+        optional group or choice may be absent, whatever its own indicator.
+
+        Args:
+            occur: The dtd content occur instance.
+            **kwargs: The restriction arguments of the surrounding groups
+
+        Returns:
+            The merged restriction arguments
+        """
+        params = cls.build_occurs(occur)
+        if "min_occurs" in kwargs:
+            params["min_occurs"] = min(params["min_occurs"], kwargs["min_occurs"])
+        if "max_occurs" in kwargs:
+            params["max_occurs"] = max(params["max_occurs"], kwargs["max_occurs"])
+
+        return {**kwargs, **params}
+
+    @classmethod
     def build_restrictions(cls, occur: DtdContentOccur, **kwargs: Any) -> Restrictions:
         """Map the dtd content occur instance to a restriction instance.
 
@@ -267,10 +290,7 @@ class DtdMapper:
         Returns:
             The mapped restrictions instance.
         """
-        params = cls.build_occurs(occur)
-        params.update(kwargs)
-
-        return Restrictions(**params)
+        return Restrictions(**cls.merge_occurs(occur, **kwargs))
 
     @classmethod
     def build_element(cls, target: Class, name: str, restrictions: Restrictions):
